@@ -180,16 +180,19 @@ fn references_resolve(files: &BTreeMap<String, String>, project_types: &[&str]) 
             i += 1;
         }
     }
-    // no module declares the same exported name twice
+    // no module declares the same exported name twice (a type and a value of one name live in different declaration spaces)
     for (f, text) in files {
         if !f.ends_with(".ts") { continue; }
-        let mut seen = BTreeSet::new();
+        let mut seen: BTreeSet<(bool, String)> = BTreeSet::new();
         for l in text.lines() {
-            let e = exports_of(l);
-            for n in e { if l.trim_start().starts_with("export ") && !l.contains(" from ") && !seen.insert(n.clone()) {
-                // an interface and a const of the same name never occur in the templates; `export type X` + `export const XSchema` differ
-                return Err(format!("{}: `{}` is exported twice", f, n));
-            } }
+            let lt = l.trim_start();
+            if !lt.starts_with("export ") || l.contains(" from ") { continue; }
+            let mut it = lt["export ".len()..].split(|c: char| !(c.is_alphanumeric() || c == '_' || c == '$')).filter(|w| !w.is_empty());
+            let mut kw = it.next().unwrap_or("");
+            if kw == "async" || kw == "declare" || kw == "default" { kw = it.next().unwrap_or(""); }
+            let name = match it.next() { Some(n) => n.to_string(), None => continue };
+            let spaces: &[bool] = match kw { "interface" | "type" => &[true], "const" | "function" | "let" | "var" => &[false], "class" | "enum" => &[true, false], _ => continue };
+            for sp in spaces { if !seen.insert((*sp, name.clone())) { return Err(format!("{}: `{}` is exported twice as a {}", f, name, if *sp { "type" } else { "value" })); } }
         }
     }
     Ok(format!("{} qualified references", n))
@@ -502,6 +505,8 @@ fn main() {
             ("rename_upper", "#[serde(rename = \"HTTPCode\")]", Some("HTTPCode")),
             ("r#type", "", Some("type")),
             ("same_name", "#[serde(rename = \"same_name\")]", Some("same_name")),
+            ("marker", "", Some("marker")),
+            ("unit_field", "", Some("unit_field")),
             ("ser_de", "#[serde(rename(serialize = \"accountId\", deserialize = \"account_id\"))]", Some("accountId")),
             ("ser_only", "#[serde(rename(serialize = \"ser-only\"))]", Some("ser-only")),
             ("de_first", "#[serde(rename(deserialize = \"in_name\", serialize = \"outName\"))]", Some("outName")),
@@ -525,7 +530,7 @@ fn main() {
             let mut keys = Vec::new();
             for (fname, attr, want) in &fields {
                 if !attr.is_empty() { body.push_str(&format!("    {}\n", attr)); }
-                let ty = if *fname == "ser_if" || *fname == "with_rename_word" { "Option<u32>" } else { "u32" };
+                let ty = if *fname == "ser_if" || *fname == "with_rename_word" { "Option<u32>" } else if *fname == "marker" { "std::marker::PhantomData<u32>" } else if *fname == "unit_field" { "()" } else { "u32" };
                 body.push_str(&format!("    pub {}: {},\n", fname, ty));
                 if let Some(w) = want {
                     let explicit = attr.contains("rename = ") || (attr.contains("rename(") && attr.replace("deserialize", "").contains("serialize"));
@@ -736,7 +741,8 @@ fn main() {
                 // (event, payload type of the listener): the declared type of the payload variable, translated
                 let want = [("t-typed-vec-new", "types.Player[]"), ("t-typed-default", "types.Player"), ("t-typed-method", "number"), ("t-typed-none", "types.Player | null"), ("t-typed-from", "string"),
                     ("p-vec-struct", "types.Player[]"), ("p-lifetime-opt", "types.Player | null"), ("p-lifetime-vec", "string[]"), ("a-ref-payload", "boolean"), ("a-stmt", "number"), ("f-generic-payload", "unknown"),
-                    ("n-if-let", "unknown"), ("n-while-let", "unknown"), ("n-match-guard", "unknown"), ("n-closure", "number")];
+                    ("n-if-let", "unknown"), ("n-while-let", "unknown"), ("n-match-guard", "unknown"), ("n-closure", "number"),
+                    ("r-mixed", "unknown"), ("r-repeat", "number")];
                 for (name, ty) in want {
                     let needle = format!(">('{}',", name);
                     let p = ev.find(&needle).ok_or(format!("no listener subscribed to '{}'", name))?;
@@ -789,6 +795,8 @@ fn main() {
             ("two-files", vec![("a.rs".to_string(), format!("{}{}{}{}{}{}", hdr, items[0], items[2], items[5], items[6], items[8])), ("b.rs".to_string(), format!("{}{}{}{}{}", hdr, items[1], items[3], items[4], items[7]))]),
             ("two-files-swapped", vec![("b.rs".to_string(), format!("{}{}{}{}{}{}", hdr, items[8], items[5], items[2], items[0], items[6])), ("a.rs".to_string(), format!("{}{}{}{}{}", hdr, items[7], items[4], items[3], items[1]))]),
             ("same-named-helpers-first", vec![("lib.rs".to_string(), format!("{}mod helpers {{\n    pub fn poll() {{}}\n    pub fn start(x: u32) -> u32 {{ x }}\n    pub fn finish() {{}}\n}}\n{}", hdr, items.join("")))]),
+            ("two-functions-per-line", vec![("lib.rs".to_string(), format!("{}{}", hdr, items.iter().map(|s| s.trim_end().replace('\n', " ")).collect::<Vec<_>>().chunks(2).map(|c| c.join(" ")).collect::<Vec<_>>().join("\n")))]),
+            ("two-functions-per-line-shifted", vec![("lib.rs".to_string(), format!("{}{}\n{}", hdr, items[0].trim_end().replace('\n', " "), items[1..].iter().map(|s| s.trim_end().replace('\n', " ")).collect::<Vec<_>>().chunks(2).map(|c| c.join(" ")).collect::<Vec<_>>().join("\n")))]),
             ("one-file-rotated", vec![("lib.rs".to_string(), format!("{}{}{}", hdr, items[4..].join(""), items[..4].join("")))]),
             ("one-file-interleaved", vec![("lib.rs".to_string(), format!("{}{}", hdr, [8usize, 0, 6, 1, 2, 7, 3, 4, 5].iter().map(|i| items[*i].clone()).collect::<Vec<_>>().join("")))]),
             ("with-noise", vec![("lib.rs".to_string(), format!("{}// comment\n\n\n{}", hdr, items.iter().map(|s| format!("/* noise */\n{}\n\npub fn unrelated_{}() {{}}\n", s, s.len())).collect::<Vec<_>>().join("")))]),
@@ -1063,6 +1071,9 @@ fn main() {
             #[tauri::command]\npub fn accounts(app: tauri::AppHandle, first: Uuid) -> Vec<Account> {{ app.emit(\"account:seen\", first).ok(); vec![] }}\n\
             #[tauri::command]\npub fn ids(on_id: Channel<Vec<Uuid>>) -> HashMap<Uuid, Vec<Timestamp>> {{ todo!() }}\n\
             pub fn touch(app: &tauri::AppHandle, when: Option<Timestamp>) {{ app.emit(\"account:touched\", when).ok(); }}\n\
+            pub fn mark_a(app: &tauri::AppHandle, at: Timestamp) {{ app.emit(\"account:marked\", at).ok(); }}\n\
+            pub fn mark_b(app: &tauri::AppHandle, at: u64) {{ app.emit(\"account:marked\", at).ok(); }}\n\
+            pub fn mark_c(app: &tauri::AppHandle, id: Uuid, name: String) {{ app.emit(\"account:named\", id).ok(); app.emit(\"account:named\", name).ok(); }}\n\
             #[derive(Serialize, Deserialize, Clone)]\npub struct Stamped {{ pub at: ext::Stamp, pub all: Vec<ext::Stamp> }}\n\
             #[tauri::command]\npub fn stamps(s: Stamped, first: ext::Stamp, on_stamp: Channel<ext::Stamp>, on_many: Channel<Vec<Option<ext::Stamp>>>) -> Result<Vec<ext::Stamp>, String> {{ Ok(vec![]) }}\n", HDR);
         let dir = root.join("mapped/src");
@@ -1101,6 +1112,18 @@ fn main() {
                 Ok("ok".into())
             });
             rep.case("type_references_resolve", &format!("project=mapped mode={}", mode), &|| references_resolve(res.as_ref().map_err(|e| e.clone())?, &["Account", "Stamped"]));
+            rep.case("mapped_payloads_merge_as_their_targets", &format!("project=mapped mode={}", mode), &|| {
+                let files = res.as_ref().map_err(|e| e.clone())?;
+                let ev = files.get("events.ts").ok_or("no events.ts")?;
+                for (name, ty) in [("account:marked", "number"), ("account:named", "string"), ("account:seen", "string"), ("account:touched", "number | null")] {
+                    let needle = format!(">('{}',", name);
+                    let p = ev.find(&needle).ok_or(format!("UNPARSED: no listener subscribed to '{}' in the expected form", name))?;
+                    let line_start = ev[..p].rfind('\n').map_or(0, |i| i + 1);
+                    let got = ev[line_start..p].trim().strip_prefix("return listen<").ok_or("UNPARSED: unexpected listen line")?;
+                    if got != ty { return Err(format!("listener of '{}' takes `{}`; every site emits a value that the mapping renders as `{}`", name, got, ty)); }
+                }
+                Ok("ok".into())
+            });
             rep.case("generated_files_are_lexically_wellformed", &format!("project=mapped mode={}", mode), &|| lexical_wellformed(res.as_ref().map_err(|e| e.clone())?));
         }
     }
@@ -1131,16 +1154,54 @@ fn main() {
             #[derive(Serialize, Deserialize, Clone)]\npub struct Attachment {{ pub name: String }}\n\
             #[derive(Serialize, Deserialize, Clone)]\npub struct Revision {{ pub n: u32 }}\n\
             #[derive(Serialize, Deserialize, Clone)]\npub struct Author {{ pub name: String }}\n\
-            #[derive(Serialize, Deserialize, Clone)]\npub struct Doc {{ pub files: HashMap<Uuid, Attachment>, pub revs: Vec<(Instant, Revision)>, pub who: (PathBuf, Author), pub note: Option<Stamp> }}\n\
+            #[derive(Serialize, Deserialize, Clone)]\npub struct Doc {{ pub files: HashMap<Uuid, Attachment>, pub revs: Vec<(Instant, Revision)>, pub who: (PathBuf, Author), pub note: Option<Stamp>, pub members: Option<HashMap<String, Member>>, pub shifts: Vec<HashMap<String, Shift>>, pub tags: Option<std::collections::BTreeSet<Tag>>, pub audit: Vec<AuditSchema>, pub last: Option<Audit> }}\n\
+            #[derive(Serialize, Deserialize, Clone)]\npub struct Member {{ pub id: u32 }}\n\
+            #[derive(Serialize, Deserialize, Clone)]\npub struct Shift {{ pub hours: u32 }}\n\
+            #[derive(Serialize, Deserialize, Clone, PartialEq, Eq, PartialOrd, Ord)]\npub enum Tag {{ Red, Blue }}\n\
+            #[derive(Serialize, Deserialize, Clone)]\npub struct AuditSchema {{ pub tables: Vec<String>, pub version: u32 }}\n\
+            #[derive(Serialize, Deserialize, Clone)]\npub struct Audit {{ pub id: u32, pub path: String }}\n\
+            #[derive(Serialize, Deserialize, Clone)]\npub struct User {{ pub name: String }}\n\
+            #[derive(Serialize, Deserialize, Clone)]\npub struct AdminUser {{ pub user: User, pub level: u32 }}\n\
+            #[derive(Serialize, Deserialize, Clone)]\npub struct Item {{ pub sku: String }}\n\
+            #[derive(Serialize, Deserialize, Clone)]\npub struct OrderItem {{ pub item: Item, pub qty: u32 }}\n\
+            #[derive(Serialize, Deserialize, Clone)]\npub struct Cart {{ pub items: Vec<OrderItem>, pub owner: AdminUser }}\n\
+            #[cfg(not(test))]\n#[derive(Serialize, Deserialize, Clone)]\npub struct RealOnly {{ pub n: u32 }}\n\
+            #[cfg(any(test, debug_assertions))]\n#[derive(Serialize, Deserialize, Clone)]\npub struct DebugInfo {{ pub real: RealOnly }}\n\
+            #[cfg(feature = \"latest\")]\n#[derive(Serialize, Deserialize, Clone)]\npub enum Gate {{ Open, Closed }}\n\
+            #[tauri::command]\npub fn cart(c: Cart, d: DebugInfo, g: Gate) -> u32 {{ 0 }}\n\
             #[tauri::command]\npub fn add_task(app: tauri::AppHandle, task: Task) -> Board {{ app.emit(\"task-added\", task.clone()).ok(); todo!() }}\n\
             #[tauri::command]\npub fn load_doc(id: u32, retries: Option<u32>, on_progress: Channel<u32>) -> Doc {{ todo!() }}\n\
             #[tauri::command]\npub fn boards() -> Vec<Board> {{ vec![] }}\n", HDR);
         let dir = root.join("shared/src");
         write_files(&dir, &[("lib.rs".to_string(), src)]);
-        let tys = ["Priority", "Task", "Board", "Attachment", "Revision", "Author", "Doc"];
+        let tys = ["Priority", "Task", "Board", "Attachment", "Revision", "Author", "Doc", "Member", "Shift", "Tag", "AuditSchema", "Audit", "User", "AdminUser", "Item", "OrderItem", "Cart", "RealOnly", "DebugInfo", "Gate"];
         for mode in ["none", "zod"] {
             let files = generate(&dir, &root.join(format!("shared/out_{}", mode)), mode);
-            rep.case("mentioned_project_types_are_declared", &format!("project=shared mode={}", mode), &|| types_module_is_closed(files.as_ref().map_err(|e| e.clone())?, &tys));
+            rep.case("mentioned_project_types_are_declared", &format!("project=shared mode={}", mode), &|| {
+                let files = files.as_ref().map_err(|e| e.clone())?;
+                let exp = exports_of(files.get("types.ts").ok_or("no types.ts")?);
+                for n in tys { if !exp.contains(n) && !exp.contains(&format!("{}Schema", n)) { return Err(format!("{} is reachable from a command but types.ts does not declare it", n)); } }
+                types_module_is_closed(files, &tys)
+            });
+            rep.case("both_modes_reference_the_same_types", &format!("project=shared mode={}", mode), &|| {
+                // C10: per key, the project types the plain declaration mentions are the ones whose schema constants the z.object mentions
+                if mode != "zod" { return Ok("n/a".into()); }
+                let z = files.as_ref().map_err(|e| e.clone())?.get("types.ts").ok_or("no types.ts")?.clone();
+                let n = fs::read_to_string(root.join("shared/out_none/types.ts")).map_err(|e| e.to_string())?;
+                let consts: BTreeSet<String> = z.lines().filter_map(|l| l.strip_prefix("export const ")).map(|r| r.chars().take_while(|c| c.is_alphanumeric() || *c == '_').collect::<String>()).collect();
+                for sname in ["Doc", "Cart", "AdminUser", "OrderItem", "Board", "Task", "DebugInfo"] {
+                    let plain = object_entries(&n, sname, false).ok_or(format!("UNPARSED: plain declaration of {}", sname))?;
+                    let zod = object_entries(&z, sname, true).ok_or(format!("UNPARSED: z.object of {}", sname))?;
+                    for ((kp, vp), (kz, vz)) in plain.iter().zip(zod.iter()) {
+                        if kp.trim_matches('"') != kz.trim_matches('"') { return Err(format!("{}: key order differs ({} vs {})", sname, kp, kz)); }
+                        let idents = |t: &str| -> BTreeSet<String> { let mut out = BTreeSet::new(); let cs: Vec<char> = t.chars().collect(); let mut i = 0; while i < cs.len() { if cs[i].is_alphabetic() || cs[i] == '_' { let st = i; while i < cs.len() && (cs[i].is_alphanumeric() || cs[i] == '_') { i += 1; } out.insert(cs[st..i].iter().collect::<String>()); } else { i += 1; } } out };
+                        let want: BTreeSet<String> = idents(vp).into_iter().filter(|w| tys.contains(&w.as_str())).map(|w| format!("{}Schema", w)).collect();
+                        let got: BTreeSet<String> = idents(vz).into_iter().filter(|w| w.ends_with("Schema") && (consts.contains(w) || tys.contains(&w.as_str()) || tys.contains(&w.trim_end_matches("Schema")))).collect();
+                        if want != got { return Err(format!("{}.{}: the plain type `{}` mentions {:?}, the schema `{}` refers to {:?}", sname, kp, vp, want, vz, got)); }
+                    }
+                }
+                Ok("ok".into())
+            });
             rep.case("type_references_resolve", &format!("project=shared mode={}", mode), &|| references_resolve(files.as_ref().map_err(|e| e.clone())?, &tys));
             rep.case("generated_files_are_lexically_wellformed", &format!("project=shared mode={}", mode), &|| lexical_wellformed(files.as_ref().map_err(|e| e.clone())?));
             if mode == "zod" {
